@@ -805,16 +805,26 @@ theorem abs_buf_blit_self (d : Buf) (xs : List Nat) (h : d.Abs xs) (od os ls : I
 inductive AOp where
   | push (x : Val) | pop | insert (pos : Arg) (ys : List Val) | remove (pos : Arg) (n : Option Arg)
   | fill (v : Val) | put (key : Arg) (v : Val) | trim | clear
+  -- session 3: array/push with several values, array/peek, and the two C-API entries with what their C types guarantee
+  | cfunPush (ys : List Val) | peek | setcount (c : Int) (hc : c ≤ i32max)
+  | putindex (i : Int) (v : Val) (h0 : 0 ≤ i) (h1 : i < i32max)
 
-def astep (a : Arr) : AOp → Arr
-  | .push x => (a.push x).1
-  | .pop => a.pop.1
-  | .insert pos ys => (a.insert pos ys).1
-  | .remove pos n => (a.remove pos n).1
-  | .fill v => (a.fill v).1
-  | .put key v => (a.put key v).1
-  | .trim => a.trim.1
-  | .clear => a.clear.1
+/-- one operation: new state and outcome -/
+def astepR (a : Arr) : AOp → Arr × Outcome Val
+  | .push x => a.push x
+  | .pop => a.pop
+  | .insert pos ys => a.insert pos ys
+  | .remove pos n => a.remove pos n
+  | .fill v => a.fill v
+  | .put key v => a.put key v
+  | .trim => a.trim
+  | .clear => a.clear
+  | .cfunPush ys => a.cfunPush ys
+  | .peek => a.peek
+  | .setcount c _ => a.setcount c
+  | .putindex i v _ _ => a.putindex i v
+
+def astep (a : Arr) (op : AOp) : Arr := (astepR a op).1
 
 theorem step_push (a : Arr) (xs : List Val) (h : a.Abs xs) (x : Val) : ∃ zs, (a.push x).1.Abs zs := by
   rcases Arr.push_abs h x with ⟨_, e⟩ | ⟨_, _, hA⟩
@@ -833,15 +843,39 @@ theorem step_remove (a : Arr) (xs : List Val) (h : a.Abs xs) (pos n) : ∃ zs, (
   · exact ⟨xs, by rw [e]; exact h⟩
   · exact ⟨_, hA⟩
 
-theorem astep_abs (a : Arr) (xs : List Val) (h : a.Abs xs) : (op : AOp) → ∃ zs, (astep a op).Abs zs
-  | .push x => step_push a xs h x
-  | .pop => ⟨_, (Arr.pop_abs h).1⟩
-  | .insert pos ys => step_insert a xs h pos ys
-  | .remove pos n => step_remove a xs h pos n
-  | .fill v => ⟨_, (Arr.fill_abs h v).2⟩
-  | .put key v => step_put a xs h key v
-  | .trim => ⟨_, (Arr.trim_abs h).2⟩
-  | .clear => ⟨_, Arr.clear_abs h⟩
+theorem step_cfunPush (a : Arr) (xs : List Val) (h : a.Abs xs) (ys : List Val) : ∃ zs, (a.cfunPush ys).1.Abs zs := by
+  rcases Arr.cfunPush_abs h ys with ⟨e, _⟩ | ⟨_, hA⟩
+  · exact ⟨xs, by rw [e]; exact h⟩
+  · exact ⟨_, hA⟩
+
+theorem step_peek (a : Arr) (xs : List Val) (h : a.Abs xs) : ∃ zs, (a.peek).1.Abs zs := by
+  refine ⟨xs, ?_⟩
+  unfold Arr.peek
+  by_cases c : a.count ≠ 0
+  · rw [if_pos c]; exact h
+  · rw [if_neg c]; exact h
+
+theorem step_setcount (a : Arr) (xs : List Val) (h : a.Abs xs) (c : Int) (hc : c ≤ i32max) : ∃ zs, (a.setcount c).1.Abs zs :=
+  ⟨_, (Arr.setcount_abs h c hc).2⟩
+
+theorem step_putindex (a : Arr) (xs : List Val) (h : a.Abs xs) (i : Int) (v : Val) (h0 : 0 ≤ i) (h1 : i < i32max) :
+    ∃ zs, (a.putindex i v).1.Abs zs := ⟨_, (Arr.putindex_abs h i v h0 h1).2⟩
+
+theorem astep_abs (a : Arr) (xs : List Val) (h : a.Abs xs) (op : AOp) : ∃ zs, (astep a op).Abs zs := by
+  show ∃ zs, (astepR a op).1.Abs zs
+  cases op with
+  | push x => exact step_push a xs h x
+  | pop => exact ⟨_, (Arr.pop_abs h).1⟩
+  | insert pos ys => exact step_insert a xs h pos ys
+  | remove pos n => exact step_remove a xs h pos n
+  | fill v => exact ⟨_, (Arr.fill_abs h v).2⟩
+  | put key v => exact step_put a xs h key v
+  | trim => exact ⟨_, (Arr.trim_abs h).2⟩
+  | clear => exact ⟨_, Arr.clear_abs h⟩
+  | cfunPush ys => exact step_cfunPush a xs h ys
+  | peek => exact step_peek a xs h
+  | setcount c hc => exact step_setcount a xs h c hc
+  | putindex i v h0 h1 => exact step_putindex a xs h i v h0 h1
 
 /-- **for all operation sequences** on an array — whatever the arguments, ill-typed and out of range included — the
 state stays a well-formed sequence: every cell below `count` is initialised, `count ≤ capacity`, both fit `int32_t`
@@ -1246,6 +1280,15 @@ theorem abs_peek (a : Arr) (xs : List Val) (h : a.Abs xs) :
   by_cases h0 : a.count ≠ 0
   · rw [if_pos h0] at hp ⊢; exact ⟨rfl, hp.2⟩
   · rw [if_neg h0] at hp ⊢; exact ⟨rfl, hp.2⟩
+
+/-- **array/remove, exact decoding**: a negative index counts from the end (`-1` is the last element), the count
+defaults to 1 and is clamped to what is left; everything else raises the error with the array unchanged -/
+theorem abs_remove_exact (a : Arr) (xs : List Val) (h : a.Abs xs) (q : Int) (n : Option Arg) :
+    let p : Int := if q < 0 then (xs.length : Int) + q else q
+    (((p < 0 ∨ p > xs.length) ∨ removeCount n = none) ∧ a.remove (.int q) n = (a, .err)) ∨
+    ∃ m0 : Int, 0 ≤ p ∧ p ≤ xs.length ∧ removeCount n = some m0 ∧ 0 ≤ m0 ∧ (a.remove (.int q) n).2 = .ok ∧
+      (a.remove (.int q) n).1.Abs (xs.take p.toNat ++ xs.drop (p.toNat + (min m0 ((xs.length : Int) - p)).toNat)) :=
+  Arr.remove_exact h q n
 
 theorem abs_clear_seq (a : Arr) (xs : List Val) (h : a.Abs xs) : (a.clear).2 = .ok ∧ (a.clear).1.Abs [] :=
   ⟨rfl, Arr.clear_abs h⟩
